@@ -258,11 +258,14 @@ func (r *Route) weighTargets() {
 	// normalize fixed weights up (sumFixed < 1) or down (sumFixed > 1)
 	normalize := sumFixed > 1 || (nFixed == len(r.Targets) && sumFixed < 1)
 
-	// compute the weight for the targets with dynamic weights
-	dynamic := (1 - sumFixed) / float64(len(r.Targets)-nFixed)
-	if dynamic < 0 {
-		dynamic = 0
+	// compute the weight for the targets with dynamic weights. Fixed weights
+	// which add up to 100% on paper (0.7+0.2+0.1) may sum to a hair less than
+	// 1 in floating point: that residue is not traffic to hand out.
+	rest := 1 - sumFixed
+	if rest < 1e-9 {
+		rest = 0
 	}
+	dynamic := rest / float64(len(r.Targets)-nFixed)
 
 	// assign the actual weight to each target
 	for _, t := range r.Targets {
